@@ -3,6 +3,7 @@
 usage: seed_matrix.py [ids...]   -> writes /verif/seeded/MATRIX.json and prints a table."""
 import sys, os, subprocess, json, glob
 REPO = os.environ.get("REPO", "/repo")
+MCAPVET = os.environ.get("MCAPVET", "/verif/bin/mcapvet")
 ENV = dict(os.environ, GOFLAGS="", GOPROXY="off", GOSUMDB="off", GOTOOLCHAIN="local"); ENV.pop("GOWORK", None)
 def sh(cmd, cwd=None):
     p = subprocess.run(cmd, shell=True, cwd=cwd, env=ENV, capture_output=True, text=True)
@@ -16,7 +17,7 @@ sh("/verif/check C14 quick >/dev/null")  # make sure the binary is built
 mp = "/verif/seeded/MATRIX.json"
 matrix = json.load(open(mp)) if os.path.exists(mp) else {}
 def run_multi():
-    rc, out = sh(f"/verif/bin/mcapvet multi {','.join(props)} --repo {REPO} --verif /verif", cwd="/verif")
+    rc, out = sh(f"{MCAPVET} multi {','.join(props)} --repo {REPO} --verif /verif", cwd="/verif")
     res = {}
     for l in out.splitlines():
         if l.startswith("MULTI {"):
